@@ -647,3 +647,227 @@ Proof.
   - (* finished thread: no step *)
     stepR_cases H; congruence.
 Qed.
+
+(* ------------------------------------------------------------------------- *)
+(* the initial configuration of a producer/consumer program satisfies W      *)
+(* ------------------------------------------------------------------------- *)
+
+Lemma cnt_app p a b : cnt p (a ++ b) = cnt p a + cnt p b.
+Proof. unfold cnt. now rewrite filter_app, app_length. Qed.
+
+Lemma cnt_const p (b : bool) l : (forall x, In x l -> p x = b) -> cnt p l = if b then length l else 0.
+Proof.
+  unfold cnt. induction l as [|h tl IH]; intros H; simpl.
+  - now destruct b.
+  - rewrite (H h (or_introl eq_refl)). specialize (IH (fun x Hx => H x (or_intror Hx))).
+    destruct b; simpl; lia.
+Qed.
+
+Lemma cls_producer vs : cls (producer vs) = (true, false, false, false).
+Proof. apply (cls_P _ vs); reflexivity. Qed.
+
+Lemma pc_threads_cls cap vss nc nd :
+  let ths := threads (pc_config cap vss nc nd) in
+  cnt has_done ths = length vss /\ cnt has_wait ths = 1 /\ cnt has_close ths = 1 /\
+  cnt is_cons ths = nc.
+Proof.
+  intros ths; subst ths. unfold pc_config. cbn [threads]. rewrite !cnt_app.
+  assert (P : forall x, In x (map producer vss) -> cls x = (true, false, false, false)).
+  { intros x Hx. apply in_map_iff in Hx. destruct Hx as (vs & <- & _). apply cls_producer. }
+  assert (C : forall x, In x (repeat (consumer 0) nc) -> cls x = (false, false, false, true)).
+  { intros x Hx. apply repeat_spec in Hx. now subst. }
+  assert (D : forall x, In x (repeat drainer nd) -> cls x = (false, false, false, false)).
+  { intros x Hx. apply repeat_spec in Hx. now subst. }
+  unfold cls in P, C, D.
+  repeat split.
+  - rewrite (cnt_const has_done true (map producer vss)) by (intros x Hx; specialize (P x Hx); congruence).
+    rewrite (cnt_const has_done false (repeat _ nc)) by (intros x Hx; specialize (C x Hx); congruence).
+    rewrite (cnt_const has_done false (repeat _ nd)) by (intros x Hx; specialize (D x Hx); congruence).
+    rewrite map_length. unfold cnt; simpl. lia.
+  - rewrite (cnt_const has_wait false (map producer vss)) by (intros x Hx; specialize (P x Hx); congruence).
+    rewrite (cnt_const has_wait false (repeat _ nc)) by (intros x Hx; specialize (C x Hx); congruence).
+    rewrite (cnt_const has_wait false (repeat _ nd)) by (intros x Hx; specialize (D x Hx); congruence).
+    unfold cnt; simpl. lia.
+  - rewrite (cnt_const has_close false (map producer vss)) by (intros x Hx; specialize (P x Hx); congruence).
+    rewrite (cnt_const has_close false (repeat _ nc)) by (intros x Hx; specialize (C x Hx); congruence).
+    rewrite (cnt_const has_close false (repeat _ nd)) by (intros x Hx; specialize (D x Hx); congruence).
+    unfold cnt; simpl. lia.
+  - rewrite (cnt_const is_cons false (map producer vss)) by (intros x Hx; specialize (P x Hx); congruence).
+    rewrite (cnt_const is_cons true (repeat _ nc)) by (intros x Hx; specialize (C x Hx); congruence).
+    rewrite (cnt_const is_cons false (repeat _ nd)) by (intros x Hx; specialize (D x Hx); congruence).
+    rewrite repeat_length. unfold cnt; simpl. lia.
+Qed.
+
+Lemma pc_initial cap vss nc nd : initial (pc_config cap vss nc nd).
+Proof.
+  split; [exists [cap]; reflexivity|]. unfold pc_config. cbn [threads].
+  repeat (apply Forall_app; split); try (repeat constructor; fail).
+  - apply Forall_forall. intros x Hx. apply in_map_iff in Hx. destruct Hx as (vs & <- & _). split; reflexivity.
+  - apply Forall_forall. intros x Hx. apply repeat_spec in Hx. subst. split; reflexivity.
+  - apply Forall_forall. intros x Hx. apply repeat_spec in Hx. subst. split; reflexivity.
+Qed.
+
+Lemma pc_W cap vss nc nd : 1 <= cap -> 1 <= nc -> W (pc_config cap vss nc nd).
+Proof.
+  intros Hcap Hnc. destruct (pc_threads_cls cap vss nc nd) as (A & B & C & D).
+  pose proof (pc_initial cap vss nc nd) as Hi.
+  constructor.
+  - split; [now apply initial_inv | now apply initial_rng].
+  - reflexivity.
+  - exact Hcap.
+  - unfold pc_config. cbn [threads]. repeat (apply Forall_app; split).
+    + apply Forall_forall. intros x Hx. apply in_map_iff in Hx. destruct Hx as (vs & <- & _).
+      apply (ShP1 _ vs); reflexivity.
+    + constructor; [apply ShK0; reflexivity | constructor].
+    + apply Forall_forall. intros x Hx. apply repeat_spec in Hx. subst. apply ShC1; reflexivity.
+    + apply Forall_forall. intros x Hx. apply repeat_spec in Hx. subst. apply ShD1; reflexivity.
+  - rewrite A. reflexivity.
+  - rewrite C. reflexivity.
+  - rewrite B. discriminate.
+  - left. rewrite D. exact Hnc.
+Qed.
+
+Theorem reachable_W cap vss nc nd c :
+  1 <= cap -> 1 <= nc -> reachable (pc_config cap vss nc nd) c -> W c.
+Proof.
+  intros Hcap Hnc [s <-]. apply (run_ind_inv W).
+  - intros; eapply step_preserves_W; eauto.
+  - now apply pc_W.
+Qed.
+
+(* ------------------------------------------------------------------------- *)
+(* deadlock freedom                                                          *)
+(* ------------------------------------------------------------------------- *)
+
+Ltac kill_blocked Hb Hp Hcs :=
+  destruct Hb as [Hd | q v rest Hph Hc Hcl Htok | q rest Hph Hc Hcl Htok | rest Hph Hc Hwg];
+  [ unfold thread_done in Hd; rewrite Hp, ?Hcs in Hd; try discriminate
+  | try congruence | try congruence | try congruence ].
+
+Ltac kill_blocked2 Hb Hp Hcs :=
+  destruct Hb as [Hd2 | q2 v2 rest2 Hph2 Hc2 Hcl2 Htok2 | q2 rest2 Hph2 Hc2 Hcl2 Htok2 | rest2 Hph2 Hc2 Hwg2];
+  [ unfold thread_done in Hd2; rewrite Hp, ?Hcs in Hd2; try discriminate
+  | try congruence | try congruence | try congruence ].
+
+Section AllBlocked.
+Variable c : config.
+Hypothesis HW : W c.
+Hypothesis Hall : forall t, t < length (threads c) -> step c t = None.
+
+Let HI : Inv c := proj1 (W_inv c HW).
+
+Lemma blk t : t < length (threads c) -> blocked c t.
+Proof. intros Hlt. apply (enabledness c t HI). now apply Hall. Qed.
+
+Lemma adds_done_nonnil ws : map (CAdd 0) ws ++ [CDone] <> [].
+Proof. destruct ws; discriminate. Qed.
+
+(* a producer between calls is never blocked *)
+Lemma no_P1 t ws : t < length (threads c) ->
+  tph (gett c t) = PIdle -> tcalls (gett c t) = map (CAdd 0) ws ++ [CDone] -> False.
+Proof.
+  intros Hlt Hp Hcs. pose proof (blk t Hlt) as Hb.
+  destruct ws as [|w ws]; simpl in Hcs; kill_blocked Hb Hp Hcs.
+Qed.
+
+(* a producer blocked on its send: the buffer is full, so a live consumer can claim *)
+Lemma no_P2 t w ws : t < length (threads c) ->
+  tph (gett c t) = PSend 0 -> tcalls (gett c t) = CAdd 0 w :: map (CAdd 0) ws ++ [CDone] -> False.
+Proof.
+  intros Hlt Hp Hcs. pose proof (blk t Hlt) as Hb. kill_blocked Hb Hp Hcs.
+  rewrite Hp in Hph; inversion Hph; subst q.
+  pose proof (W_cap c HW) as Hcap.
+  destruct (W_cons c HW) as [Hc1|[Hc2 _]]; [|congruence].
+  destruct (cnt_pos_ex is_cons (threads c) ltac:(lia)) as (t' & Hlt' & Ht').
+  pose proof (shape_gett c t' (W_shape c HW) Hlt') as Hs'. fold (gett c t') in Ht'.
+  unfold is_cons in Ht'.
+  pose proof (blk t' Hlt') as Hb'.
+  destruct Hs' as [ws' Hl' ? E | w' ws' Hl' ? E | Hl' ? E | Hl' ? E | Hl' Hp' E | Hl' Hp' E
+                  | Hl' ? E | Hl' ? E | Hl' ? E]; rewrite Hl' in Ht'; try discriminate.
+  - (* C1 *) kill_blocked2 Hb' Hp' E.
+    rewrite E in Hc2; inversion Hc2; subst q2. lia.
+  - (* C2 *) kill_blocked2 Hb' Hp' E.
+Qed.
+
+(* the closer blocked on the wait group: some producer has not finished, and is not blocked *)
+Lemma no_K0 t : t < length (threads c) ->
+  tph (gett c t) = PIdle -> tcalls (gett c t) = [CWait; CClose 0] -> False.
+Proof.
+  intros Hlt Hp Hcs. pose proof (blk t Hlt) as Hb. kill_blocked Hb Hp Hcs.
+  rewrite (W_wg c HW) in Hwg.
+  destruct (cnt_pos_ex has_done (threads c) Hwg) as (t' & Hlt' & Ht').
+  pose proof (shape_gett c t' (W_shape c HW) Hlt') as Hs'. fold (gett c t') in Ht'.
+  unfold has_done in Ht'.
+  destruct Hs' as [ws' Hl' Hp' E | w' ws' Hl' Hp' E | Hl' ? E | Hl' ? E | Hl' ? E | Hl' ? E
+                  | Hl' ? E | Hl' ? E | Hl' ? E]; try (rewrite E in Ht'; simpl in Ht'; discriminate).
+  - eapply no_P1; eauto.
+  - eapply no_P2; eauto.
+Qed.
+
+Lemma no_K1 t : t < length (threads c) ->
+  tph (gett c t) = PIdle -> tcalls (gett c t) = [CClose 0] -> False.
+Proof. intros Hlt Hp Hcs. pose proof (blk t Hlt) as Hb. kill_blocked Hb Hp Hcs. Qed.
+
+(* a consumer blocked on an empty open queue: the closer is still to come, and is not blocked *)
+Lemma no_C1 t : t < length (threads c) ->
+  tph (gett c t) = PIdle -> tcalls (gett c t) = [CRemoveHead 0] -> False.
+Proof.
+  intros Hlt Hp Hcs. pose proof (blk t Hlt) as Hb. kill_blocked Hb Hp Hcs.
+  rewrite Hcs in Hc; inversion Hc; subst q.
+  pose proof (W_close c HW) as Hk. rewrite Hcl in Hk. simpl in Hk.
+  destruct (cnt_pos_ex has_close (threads c) ltac:(lia)) as (t' & Hlt' & Ht').
+  pose proof (shape_gett c t' (W_shape c HW) Hlt') as Hs'. fold (gett c t') in Ht'.
+  unfold has_close in Ht'.
+  destruct Hs' as [ws' Hl' Hp' E | w' ws' Hl' Hp' E | Hl' Hp' E | Hl' Hp' E | Hl' ? E | Hl' ? E
+                  | Hl' ? E | Hl' ? E | Hl' ? E]; try (rewrite E in Ht'; simpl in Ht'; discriminate).
+  - rewrite E, existsb_app, existsb_adds in Ht' by reflexivity. discriminate.
+  - rewrite E in Ht'. simpl in Ht'. rewrite existsb_app, existsb_adds in Ht' by reflexivity. discriminate.
+  - eapply no_K0; eauto.
+  - eapply no_K1; eauto.
+Qed.
+
+Lemma all_blocked_final : final c = true.
+Proof.
+  unfold final. apply forallb_forall. intros th Hin.
+  destruct (In_nth _ _ dummyt Hin) as (t & Hlt & Ht). fold (gett c t) in Ht.
+  pose proof (shape_gett c t (W_shape c HW) Hlt) as Hs. rewrite Ht in Hs.
+  pose proof (blk t Hlt) as Hb. rewrite <- Ht.
+  rewrite <- Ht in Hs.
+  destruct Hs as [ws Hl Hp E | w ws Hl Hp E | Hl Hp E | Hl Hp E | Hl Hp E | Hl Hp E
+                 | Hl Hp E | Hl Hp E | Hl Hp E].
+  - exfalso; eapply no_P1; eauto.
+  - exfalso; eapply no_P2; eauto.
+  - exfalso; eapply no_K0; eauto.
+  - exfalso; eapply no_K1; eauto.
+  - exfalso; eapply no_C1; eauto.
+  - exfalso. kill_blocked Hb Hp E.
+  - exfalso. kill_blocked Hb Hp E.
+  - exfalso. kill_blocked Hb Hp E.
+  - unfold thread_done. now rewrite Hp, E.
+Qed.
+End AllBlocked.
+
+Theorem W_deadlock_free c : W c -> deadlocked c = false.
+Proof.
+  intros HW. unfold deadlocked.
+  destruct (final c) eqn:Hf; simpl; auto.
+  destruct (forallb _ _) eqn:Hall; auto. exfalso.
+  rewrite forallb_forall in Hall.
+  assert (Hn : forall t, t < length (threads c) -> step c t = None).
+  { intros t Hlt. specialize (Hall t). rewrite in_seq in Hall. specialize (Hall ltac:(lia)).
+    unfold enabled in Hall. destruct (step c t); [discriminate|reflexivity]. }
+  pose proof (all_blocked_final c HW Hn). congruence.
+Qed.
+
+(* in a non-final configuration some thread can take a step *)
+Theorem W_progress c : W c -> final c = false ->
+  exists t, t < length (threads c) /\ enabled c t = true.
+Proof.
+  intros HW Hf. pose proof (W_deadlock_free c HW) as Hd. unfold deadlocked in Hd.
+  rewrite Hf in Hd. simpl in Hd.
+  assert (Hex : existsb (enabled c) (seq 0 (length (threads c))) = true).
+  { clear - Hd. induction (seq 0 (length (threads c))) as [|h tl IH]; simpl in *; [discriminate|].
+    destruct (enabled c h); simpl in *; auto. }
+  apply existsb_exists in Hex. destruct Hex as (t & Hin & He).
+  apply in_seq in Hin. exists t; split; [lia|auto].
+Qed.
